@@ -10,6 +10,7 @@ pub struct Points {
     pub rexc: Vec<(u8, u32, u8)>,        // table, addr, code
     pub wexc: Vec<(u8, u32, u8)>,        // table, addr, code
     pub ov: Vec<((u8, u32), u32)>,       // overrides in insertion order
+    pub dflt: bool,                      // item `D`: the provided methods of `RequestHandler` answer
 }
 
 pub fn bit_val(seed: u32, addr: u32) -> u32 {
@@ -32,6 +33,10 @@ impl Points {
                 continue;
             }
             let kind = &item[0..1];
+            if kind == "D" {
+                p.dflt = true;
+                continue;
+            }
             let nums: Vec<u32> = item[1..].split('.').map(|x| x.parse().unwrap()).collect();
             match kind {
                 "s" => p.segs.push((nums[0] as u8, nums[1], nums[2], nums[3])),
@@ -63,7 +68,11 @@ impl Points {
         if let Some((_, _, code)) = self.rexc.iter().find(|(t, a, _)| *t == table && *a == addr) {
             return Err(*code);
         }
-        self.lookup(table, addr).ok_or(2)
+        // the library's helper for "absent point" (Option<&T> -> IllegalDataAddress)
+        self.lookup(table, addr)
+            .as_ref()
+            .to_result()
+            .map_err(u8::from)
     }
 
     pub fn write(&mut self, table: u8, addr: u32, value: u32) -> Result<(), u8> {
@@ -93,6 +102,10 @@ impl Points {
 
 pub type Log = Arc<Mutex<Vec<String>>>;
 
+/// overrides nothing: every method is the one `RequestHandler` provides
+struct Defaults;
+impl RequestHandler for Defaults {}
+
 pub struct TestHandler {
     pub unit: u8,
     pub points: Points,
@@ -109,6 +122,14 @@ impl TestHandler {
             .lock()
             .unwrap()
             .push(format!("{tag}.{}.{}", self.unit, addr));
+        if self.points.dflt {
+            return match table {
+                0 => Defaults.read_coil(addr).map(u32::from),
+                1 => Defaults.read_discrete_input(addr).map(u32::from),
+                2 => Defaults.read_holding_register(addr).map(u32::from),
+                _ => Defaults.read_input_register(addr).map(u32::from),
+            };
+        }
         self.points.read(table, addr as u32).map_err(ex)
     }
 }
@@ -131,6 +152,9 @@ impl RequestHandler for TestHandler {
             "wc.{}.{}.{}",
             self.unit, value.index, value.value as u8
         ));
+        if self.points.dflt {
+            return Defaults.write_single_coil(value);
+        }
         self.points
             .write(0, value.index as u32, value.value as u32)
             .map_err(ex)
@@ -140,6 +164,9 @@ impl RequestHandler for TestHandler {
             .lock()
             .unwrap()
             .push(format!("wr.{}.{}.{}", self.unit, value.index, value.value));
+        if self.points.dflt {
+            return Defaults.write_single_register(value);
+        }
         self.points
             .write(2, value.index as u32, value.value as u32)
             .map_err(ex)
@@ -157,6 +184,9 @@ impl RequestHandler for TestHandler {
                 .collect::<Vec<_>>()
                 .join("/")
         ));
+        if self.points.dflt {
+            return Defaults.write_multiple_coils(values);
+        }
         for x in items {
             self.points
                 .write(0, x.index as u32, x.value as u32)
@@ -177,6 +207,9 @@ impl RequestHandler for TestHandler {
                 .collect::<Vec<_>>()
                 .join("/")
         ));
+        if self.points.dflt {
+            return Defaults.write_multiple_registers(values);
+        }
         for x in items {
             self.points
                 .write(2, x.index as u32, x.value as u32)
